@@ -49,3 +49,41 @@ def write_fragmented_request(path, type_field, elements, offset, data):
 
 def rmw_request(path, size, or_mask, and_mask):
     return b"\x4e" + path + le_uint(size, 2) + le_uint(or_mask, size) + le_uint(and_mask, size)
+
+
+def le(data, pos, n):
+    v = 0
+    for k in range(n):
+        v = v + (data[pos + k] << (8 * k))
+    return v
+
+
+def split_write_fragment(msg, path_len, type_len):
+    """fields of a Write Tag Fragmented request whose path occupies path_len bytes"""
+    p = 1 + path_len
+    return {"service": msg[0], "path": msg[1:p], "type": msg[p:p + type_len], "elements": le(msg, p + type_len, 2),
+            "offset": le(msg, p + type_len + 2, 4), "data": msg[p + type_len + 6:]}
+
+
+def split_read_fragment(msg, path_len):
+    p = 1 + path_len
+    return {"service": msg[0], "path": msg[1:p], "elements": le(msg, p, 2), "offset": le(msg, p + 2, 4), "rest": msg[p + 6:]}
+
+
+def write_fragments_tile(fragments, value, path, type_field, elements):
+    """offsets start at 0 and are contiguous, the pieces concatenate to the value, the other fields never change"""
+    expected_offset = 0
+    joined = b""
+    for f in fragments:
+        if f["service"] != 0x53 or f["path"] != path or f["type"] != type_field or f["elements"] != elements:
+            return False
+        if f["offset"] != expected_offset or len(f["data"]) == 0:
+            return False
+        expected_offset = expected_offset + len(f["data"])
+        joined = joined + f["data"]
+    return joined == value
+
+
+def read_fragment_reply(head46, status, type_field, chunk):
+    """SendUnitData reply to Read Tag Fragmented: status 6 = more data follows"""
+    return head46 + bytes([0xD2, 0, status, 0]) + type_field + chunk
